@@ -50,6 +50,11 @@ theorem forall2_mem_left {α β : Type} {P : α → β → Prop} :
     · obtain ⟨y, hy, hp⟩ := forall2_mem_left t hx
       exact ⟨y, List.mem_cons_of_mem _ hy, hp⟩
 
+theorem forall2_length {α β : Type} {P : α → β → Prop} :
+    ∀ {xs : List α} {ys : List β}, Forall2 P xs ys → xs.length = ys.length
+  | _, _, .nil => rfl
+  | _, _, .cons _ t => by simp [forall2_length t]
+
 theorem all2_forall2 {α β : Type} (p : α → β → Bool) :
     ∀ (xs : List α) (ys : List β), all2 p xs ys = true → Forall2 (fun a b => p a b = true) xs ys
   | [], [], _ => .nil
